@@ -545,6 +545,7 @@ func sortedKeys[T any](m map[string]T) []string {
 
 func c15r1(c *core.Ctx) {
 	p := c.P
+	baseConstructorsUsable(c)
 	cat := buildCatalogue(p)
 	c.Count("programs", len(cat.chars)+len(cat.svcs)+len(cat.accs))
 	for _, k := range sortedKeys(cat.chars) {
@@ -1060,5 +1061,50 @@ func c15r5(c *core.Ctx) {
 		}
 		sort.Strings(missing)
 		c.Check(len(missing) == 0, "categories", token.NoPos, fmt.Sprintf("all %d metadata categories have a constant", len(cats)), "metadata categories without constant: "+strings.Join(missing, ", "))
+	}
+}
+
+// baseConstructorsUsable: the constructors that take a type argument — NewCharacteristic and the typed NewInt / NewFloat / NewBool /
+// NewString / NewBytes on top of it, the documented way to make a custom characteristic — return an object that works as they
+// return it. updateValue stores a value only while the characteristic is readable and converts it only for a declared format:
+// with Perms left nil (the doc comment of NewCharacteristic promises PermsAll) SetValue stores nothing and every typed GetValue
+// panics on nil; with no Format (NewInt, NewFloat) a controller's value is stored as it comes — a string in an Int, and the second
+// write of the same JSON array panics in the interface comparison. The generated constructors set both fields themselves afterwards.
+func baseConstructorsUsable(c *core.Ctx) {
+	p := c.P
+	consts := formatConstants(p)
+	isFormat := func(s string) bool {
+		for _, v := range consts {
+			if v == s {
+				return true
+			}
+		}
+		return false
+	}
+	storesTo := func(f *ssa.Function, field string, ok func(ssa.Value) bool) bool {
+		found := false
+		core.Instrs(f, func(i ssa.Instruction) {
+			if st, isSt := i.(*ssa.Store); isSt {
+				if _, isF := core.FieldAddrOf(st.Addr, tChar, field); isF && ok(st.Val) {
+					found = true
+				}
+			}
+		})
+		return found
+	}
+	if f := p.Func("characteristic", "NewCharacteristic"); f != nil {
+		c.Check(storesTo(f, "Perms", func(v ssa.Value) bool { return !core.IsNilConst(v) }), "base-ctor-perms@"+fname(f), f.Pos(),
+			"NewCharacteristic sets permissions", "NewCharacteristic leaves Perms nil (its doc comment promises PermsAll): a characteristic made by NewString / NewBool / … and not given permissions by hand is not readable — SetValue stores nothing and the typed GetValue panics on nil")
+	} else {
+		c.Undecided("base-ctor-perms", token.NoPos, "NewCharacteristic not found")
+	}
+	for _, w := range []string{"Int", "Float", "Bool", "String", "Bytes"} {
+		f := p.Func("characteristic", "New"+w)
+		if f == nil {
+			c.Undecided("base-ctor-format:New"+w, token.NoPos, "not found")
+			continue
+		}
+		c.Check(storesTo(f, "Format", func(v ssa.Value) bool { s, isK := core.ConstString(v); return isK && isFormat(s) }), "base-ctor-format:New"+w, f.Pos(),
+			"New"+w+" declares a format", "New"+w+" sets no format: convert hands a controller's value through unconverted — the typed getter panics on the first write of another JSON type, and the second write of the same array or object panics in the comparison of updateValue")
 	}
 }
